@@ -50,9 +50,12 @@ echo "== existing suite with change (demo removed)" >> "$LOG"
 go test -vet=off -count=1 -timeout 25m ./... > "$OUT/suite_changed.out" 2>&1
 grep -E "^(--- FAIL|FAIL|panic:|ok .*\(cached\))" "$OUT/suite_changed.out" | grep -v "TestInitConfigNonNotExistError\|^FAIL$\|FAIL	github.com/EscanBE/evermint/v12/client	" | head -30 > "$OUT/suite_failures.txt"
 NF=$(grep -c . "$OUT/suite_failures.txt")
+NOK=$(grep -c "^ok " "$OUT/suite_changed.out")
+echo "packages ok: $NOK" >> "$LOG"
 echo "unexpected suite failure lines: $NF" >> "$LOG"
 VERDICT=REJECTED
 if [ $RC0 -eq 0 ] && [ $RC1 -ne 0 ] && [ $RCB -eq 0 ] && [ "$NF" -eq 0 ]; then VERDICT=CONFIRMED; fi
+if [ "$NOK" -lt 40 ]; then VERDICT=INCOMPLETE-SUITE-RUN; fi
 echo "VERDICT=$VERDICT (demo unchanged exit=$RC0, demo changed exit=$RC1, build=$RCB, unexpected suite failures=$NF)" >> "$LOG"
 tail -c 1500 "$OUT/demo_changed.out" > "$OUT/demo_changed.tail"; rm -f "$OUT/demo_changed.out" "$OUT/suite_changed.out"
 tail -c 600 "$OUT/demo_unchanged.out" > "$OUT/demo_unchanged.tail"; rm -f "$OUT/demo_unchanged.out"
